@@ -23,6 +23,7 @@ size_t GF;                       /* ghost witness index of the first-occurrence 
 #endif
 #ifndef IORA_FIND_TERM_2
 #define IORA_FIND_TERM_2 GF
+#define IORA_FIND_ONE_TERM
 #endif
 
 #define IORA_CH_CR ((char)13)
@@ -139,51 +140,71 @@ static inline size_t iora_sv_find_first_not_ows(const iora_sv *s, size_t pos) { 
 static inline size_t iora_sv_find_last_not_ows(const iora_sv *s, size_t pos) { return iora_sv_find_last_not_ows_impl(s, pos); }
 #else
 #define IORA_FIND_R __CPROVER_return_value
+/* Per-proof weakening of the ASSUMED contracts (sound: a weaker assumed postcondition only adds behaviours):
+ *   -DIORA_FIND_NO_WITNESS  drops the first-occurrence clauses (proofs that only need "the result is a match")
+ *   -DIORA_FIND_NO_CONTENT  additionally drops "the bytes at the result match" (pure range facts: memory-safety and
+ *                           arithmetic proofs; keeps the byte array out of the formula - measured 10x faster) */
+#ifdef IORA_FIND_NO_CONTENT
+#define IORA_FIND_NO_WITNESS
+#define IORA_FIND_CONTENT(e_) 1
+#else
+#define IORA_FIND_CONTENT(e_) (e_)
+#endif
+#ifdef IORA_FIND_NO_WITNESS
+#define IORA_FIND_WITNESS(e_) 1
+#else
+#define IORA_FIND_WITNESS(e_) (e_)
+#endif
+#ifdef IORA_FIND_ONE_TERM
+#define IORA_FIND_WITNESS2(e_) 1
+#else
+#define IORA_FIND_WITNESS2(e_) IORA_FIND_WITNESS(e_)
+#endif
 /* no match at ghost term t_ when it lies in the searched-and-rejected range [pos, result) */
 #define IORA_FIRST_CH(t_) ((pos <= (t_) && (t_) < s->n && (IORA_FIND_R == IORA_NPOS || (t_) < IORA_FIND_R)) ==> s->p[(t_)] != c)
 size_t iora_sv_find_ch(const iora_sv *s, char c, size_t pos)
   __CPROVER_requires(IORA_TRUE)
   __CPROVER_assigns()
   __CPROVER_ensures(IORA_FIND_R == IORA_NPOS || (pos <= IORA_FIND_R && IORA_FIND_R < s->n))
-  __CPROVER_ensures(IORA_FIND_R != IORA_NPOS ==> s->p[IORA_FIND_R] == c)
-  __CPROVER_ensures(IORA_FIRST_CH(IORA_FIND_TERM_1))
-  __CPROVER_ensures(IORA_FIRST_CH(IORA_FIND_TERM_2));
+  __CPROVER_ensures(IORA_FIND_CONTENT(IORA_FIND_R != IORA_NPOS ==> s->p[IORA_FIND_R] == c))
+  __CPROVER_ensures(IORA_FIND_WITNESS(IORA_FIRST_CH(IORA_FIND_TERM_1)))
+  __CPROVER_ensures(IORA_FIND_WITNESS2(IORA_FIRST_CH(IORA_FIND_TERM_2)));
 
 #define IORA_FIRST_CRLF(t_) ((pos <= (t_) && (t_) < s->n && s->n - (t_) >= 2 && (IORA_FIND_R == IORA_NPOS || (t_) < IORA_FIND_R)) ==> !IORA_SV_CRLF_AT(*s, (t_)))
 size_t iora_sv_find_crlf(const iora_sv *s, size_t pos)
   __CPROVER_requires(IORA_TRUE)
   __CPROVER_assigns()
   __CPROVER_ensures(IORA_FIND_R == IORA_NPOS || (pos <= IORA_FIND_R && IORA_FIND_R < s->n && s->n - IORA_FIND_R >= 2))
-  __CPROVER_ensures(IORA_FIND_R != IORA_NPOS ==> IORA_SV_CRLF_AT(*s, IORA_FIND_R))
-  __CPROVER_ensures(IORA_FIRST_CRLF(IORA_FIND_TERM_1))
-  __CPROVER_ensures(IORA_FIRST_CRLF(IORA_FIND_TERM_2));
+  __CPROVER_ensures(IORA_FIND_CONTENT(IORA_FIND_R != IORA_NPOS ==> IORA_SV_CRLF_AT(*s, IORA_FIND_R)))
+  __CPROVER_ensures(IORA_FIND_WITNESS(IORA_FIRST_CRLF(IORA_FIND_TERM_1)))
+  __CPROVER_ensures(IORA_FIND_WITNESS2(IORA_FIRST_CRLF(IORA_FIND_TERM_2)));
 
 #define IORA_FIRST_CRLF2(t_) ((pos <= (t_) && (t_) < s->n && s->n - (t_) >= 4 && (IORA_FIND_R == IORA_NPOS || (t_) < IORA_FIND_R)) ==> !IORA_SV_CRLF2_AT(*s, (t_)))
 size_t iora_sv_find_crlf2(const iora_sv *s, size_t pos)
   __CPROVER_requires(IORA_TRUE)
   __CPROVER_assigns()
   __CPROVER_ensures(IORA_FIND_R == IORA_NPOS || (pos <= IORA_FIND_R && IORA_FIND_R < s->n && s->n - IORA_FIND_R >= 4))
-  __CPROVER_ensures(IORA_FIND_R != IORA_NPOS ==> IORA_SV_CRLF2_AT(*s, IORA_FIND_R))
-  __CPROVER_ensures(IORA_FIRST_CRLF2(IORA_FIND_TERM_1))
-  __CPROVER_ensures(IORA_FIRST_CRLF2(IORA_FIND_TERM_2));
+  __CPROVER_ensures(IORA_FIND_CONTENT(IORA_FIND_R != IORA_NPOS ==> IORA_SV_CRLF2_AT(*s, IORA_FIND_R)))
+  __CPROVER_ensures(IORA_FIND_WITNESS(IORA_FIRST_CRLF2(IORA_FIND_TERM_1)))
+  __CPROVER_ensures(IORA_FIND_WITNESS2(IORA_FIRST_CRLF2(IORA_FIND_TERM_2)));
 
 #define IORA_FIRST_NOT_OWS(t_) ((pos <= (t_) && (t_) < s->n && (IORA_FIND_R == IORA_NPOS || (t_) < IORA_FIND_R)) ==> IORA_IS_OWS(s->p[(t_)]))
 size_t iora_sv_find_first_not_ows(const iora_sv *s, size_t pos)
   __CPROVER_requires(IORA_TRUE)
   __CPROVER_assigns()
   __CPROVER_ensures(IORA_FIND_R == IORA_NPOS || (pos <= IORA_FIND_R && IORA_FIND_R < s->n))
-  __CPROVER_ensures(IORA_FIND_R != IORA_NPOS ==> !IORA_IS_OWS(s->p[IORA_FIND_R]))
-  __CPROVER_ensures(IORA_FIRST_NOT_OWS(IORA_FIND_TERM_1))
-  __CPROVER_ensures(IORA_FIRST_NOT_OWS(IORA_FIND_TERM_2));
+  __CPROVER_ensures(IORA_FIND_CONTENT(IORA_FIND_R != IORA_NPOS ==> !IORA_IS_OWS(s->p[IORA_FIND_R])))
+  __CPROVER_ensures(IORA_FIND_WITNESS(IORA_FIRST_NOT_OWS(IORA_FIND_TERM_1)))
+  __CPROVER_ensures(IORA_FIND_WITNESS2(IORA_FIRST_NOT_OWS(IORA_FIND_TERM_2)));
 
 #define IORA_LAST_NOT_OWS(t_) (((t_) < s->n && (t_) <= pos && (IORA_FIND_R == IORA_NPOS || (t_) > IORA_FIND_R)) ==> IORA_IS_OWS(s->p[(t_)]))
 size_t iora_sv_find_last_not_ows(const iora_sv *s, size_t pos)
   __CPROVER_requires(IORA_TRUE)
   __CPROVER_assigns()
   __CPROVER_ensures(IORA_FIND_R == IORA_NPOS || (IORA_FIND_R < s->n && IORA_FIND_R <= pos))
-  __CPROVER_ensures(IORA_FIND_R != IORA_NPOS ==> !IORA_IS_OWS(s->p[IORA_FIND_R]))
-  __CPROVER_ensures(IORA_LAST_NOT_OWS(IORA_FIND_TERM_1))
-  __CPROVER_ensures(IORA_LAST_NOT_OWS(IORA_FIND_TERM_2));
+  __CPROVER_ensures(IORA_FIND_CONTENT(IORA_FIND_R != IORA_NPOS ==> !IORA_IS_OWS(s->p[IORA_FIND_R])))
+  __CPROVER_ensures(IORA_FIND_WITNESS(IORA_LAST_NOT_OWS(IORA_FIND_TERM_1)))
+  __CPROVER_ensures(IORA_FIND_WITNESS2(IORA_LAST_NOT_OWS(IORA_FIND_TERM_2)));
 #endif
 
 #endif
